@@ -31,7 +31,7 @@ def info(tier):
         "quantity is compared with the reference at n+1 affinely independent points + 1 random point; a model is "
         "non-trivial if it has >= 2 variables and >= 1 constraint row; distinct = canonical recipe hashes",
         "required_cells": [f"layout:{l}" for l in L.LAYOUTS] + ["sense:<=", "sense:>=", "sense:==", "objective", "bounds", "columns",
-                                                                 "extract_linear_coefficient", "extract_constant_term", "history:staged-or-batched-constraints", "tiny-scale-row"],
+                                                                 "extract_linear_coefficient", "extract_constant_term", "history:staged-or-batched-constraints", "tiny-scale-row", "huge-vector-columns"],
         "assumptions": [
             "harness self-check: the written recipe equals the drawn data in exact rational arithmetic, otherwise the run is inconclusive",
             "only models that optyx itself treats as linear are judged (completeness of LP detection is not claimed)",
@@ -216,8 +216,37 @@ def run_model(lp, rec, rng):
     rec.sample(show, cap=3)
 
 
+def run_huge_vector(rec, n):
+    """The columns of a whole-vector model with more than 10 000 elements: cost entries, row entries and bounds aligned with the names."""
+    import optyx
+    from optyx import analysis as AN
+
+    rec.case({"huge-vector": n})
+    x = optyx.VectorVariable("x", n, lb=0.0, ub=2.0)
+    w = np.arange(1.0, n + 1.0)
+    r = (np.arange(n) % 7 + 1).astype(float)
+    P = optyx.Problem().minimize(w @ x + 2.5).subject_to(r @ x >= 3.0).subject_to(x.sum() <= 50.0)
+    LP = AN.LinearProgramExtractor().extract(P)
+    rec.cmp(3, "huge-vector-columns")
+    names = [f"x[{i}]" for i in range(n)]
+    if list(LP.variables) != names:
+        first = next((i for i, (g_, w_) in enumerate(zip(LP.variables, names)) if g_ != w_), 0)
+        rec.violation("columns-not-the-mentioned-variables-in-natural-order", {"show": {"model": f"c @ x, x = VectorVariable('x', {n})"}, "first_difference_at": first,
+                                                                               "got": list(LP.variables)[max(0, first - 2): first + 3]})
+        return
+    if not np.array_equal(np.asarray(LP.c, float), w):
+        i_ = int(np.argmax(np.asarray(LP.c, float) != w))
+        rec.violation("objective:cost-vector-wrong", {"show": {"model": f"c @ x, n = {n}"}, "column": names[i_], "got": float(LP.c[i_]), "want": float(w[i_])})
+    A_ = np.asarray(LP.A_ub, float)
+    if A_.shape != (2, n) or not np.array_equal(A_[0], -r) or not np.array_equal(A_[1], np.ones(n)):
+        rec.violation("constraints:row-coefficients-wrong:>=", {"show": {"model": f"r @ x >= 3, n = {n}"}, "got_shape": list(A_.shape)})
+
+
 def run(ctx, rec):
     rng = ctx.rng
+    for k_, n_ in enumerate((10050, 1200, 100020 if ctx.tier == "thorough" else 10001)):
+        if ctx.mine(k_ + 9):
+            run_huge_vector(rec, n_)
     n = 0
     target = N_RANDOM[ctx.tier]
     while n < target and not rec.out_of_time():
